@@ -17,7 +17,8 @@ from ..world import World, gen_config, gen_init, gen_op, swarm
 ID = "C15"
 RULE = (
     "Hypothesis @given: a generated solution (random forest with divisions, skip edges, several "
-    "lineages, non-contiguous ids; 2D/3D; with/without segmentation), optionally after an editing "
+    "lineages, non-contiguous ids; 2D/3D; with/without segmentation; 15 % long-track layouts of 20-50 nodes "
+    "with frame-strided ids), optionally after an editing "
     "session of 3-12 random user actions, or built through the import path with relabelled "
     "segmentation (nodes keep a source seg_id), and a non-empty random node "
     "subset (biased to leaves below divisions, roots, nodes of several lineages). CSV "
